@@ -146,6 +146,19 @@ class Check(object):
     def out_of_time(self):
         return self.time_left() <= 0 or bool(self.observations.get("watchdog-fired"))
 
+    def more(self, min_cases=0, hard_factor=4.0):
+        """Loop condition for time-budgeted workloads: keep going until the budget is used,
+        but (on a loaded machine) never stop before `min_cases` cases unless `hard_factor`
+        times the budget has passed."""
+        if self.observations.get("watchdog-fired"):
+            return False
+        if self.time_left() > 0:
+            return True
+        if self.evaluations < min_cases and self.budget_s is not None \
+                and (time.time() - self.t0) < hard_factor * self.budget_s:
+            return True
+        return False
+
     def watchdog(self, seconds=180, what="case"):
         """with ck.watchdog(120, "case 17"): ...  -- generous wall-clock guard around one case."""
         return _Watchdog(self, seconds, what)
